@@ -348,7 +348,36 @@ def rule_p11(ctx):
              "that violates the formula: `exists <rhs> q=\"{<var> m}\" in start: not (q = m)` yields 'a := 1 ; b := a', on which evaluate() answers FALSE")
 
 
+def rule_p12(ctx):
+    """After a tree insertion the ORIGINAL formula is conjoined again, instantiated with the complete new tree and with no node marked as already matched: the
+    insertion creates new context nodes next to the inserted tree, and universal quantifiers must look at them too."""
+    m, meths = solver_methods(ctx)
+    f = meths["eliminate_existential_formula"]
+    c = f"{SOLVER}:ISLaSolver.eliminate_existential_formula"
+    nf = [a for a in ast.walk(f) if isinstance(a, ast.Assign) and src(a.targets[0]) == "new_formula"]
+    if len(nf) != 1:
+        raise Unrecognised("C01.P12", c, "new_formula not found")
+
+    def operands(e):
+        if isinstance(e, ast.BinOp) and isinstance(e.op, ast.BitAnd):
+            return operands(e.left) + operands(e.right)
+        return [e]
+
+    ops = [" ".join(src(o).split()) for o in operands(nf[0].value)]
+    want = "self.formula.substitute_expressions({self.top_constant.unwrap(): new_tree})"
+    marks = [x for x in ast.walk(f) if isinstance(x, ast.Call) and isinstance(x.func, ast.Attribute) and x.func.attr == "add_already_matched"]
+    if want in ops and not marks:
+        ctx.ok("P12-reinstantiation", c, "original formula re-added for the whole new tree", site(nf[0]), want)
+    elif marks:
+        ctx.viol("P12-reinstantiation", c, "original formula re-added for the whole new tree", site(marks[0]),
+                 f"the re-added formula's universal quantifiers are told that nodes are already matched (`{' '.join(src(marks[0]).split())[:60]}`): the insertion also creates NEW context nodes "
+                 "(e.g. a new <item> with an unconstrained <num> around the inserted <key>), which are then never checked - solutions such as 'abc=32;y=54322' violate `forall <num> n: str.to.int(n) > 54321`")
+    else:
+        raise Unrecognised("C01.P12", c, f"conjuncts of the new constraint not understood: {[o[:50] for o in ops]}")
+
+
 def run(ctx) -> str:
+    ctx.guarded("P12", lambda: rule_p12(ctx))
     ctx.guarded("P11", lambda: rule_p11(ctx))
     ctx.guarded("P8", lambda: rule_p8(ctx))
     ctx.guarded("P1", lambda: rule_p1(ctx))
